@@ -311,7 +311,13 @@ def build_vars(d, n, ctx):
     if ctx["before"]:
         lines += ["int\tft_before(void)", "{"] + ["\tint\t\t\tw%d;" % k for k in range(ctx["before"])] + ["", "\treturn (0);", "}", ""]
     start = len(lines) + 1
-    lines += ["int\tft_m(void)", "{"] + decls + ["", "\treturn (0);", "}"]
+    late = ctx.get("late", 0) if n >= 2 else 0
+    if late:
+        # `late` of the n variables are declared behind the first statement (misplaced, but variables all the same)
+        top, rest = decls[:n - late], decls[n - late:]
+        lines += ["int\tft_m(void)", "{"] + top + ["", "\tft_before();"] + rest + ["\treturn (0);", "}"]
+    else:
+        lines += ["int\tft_m(void)", "{"] + decls + ["", "\treturn (0);", "}"]
     return name, "\n".join(lines) + "\n", (start, len(lines))
 
 
@@ -330,7 +336,7 @@ def context(d):
         return limit, {"protos": d.bool(0.4), "sizes": [d.int(1, 6) for _ in range(4)]}, d
     if limit == "params":
         return limit, {"where": d.choice(["def", "proto", "def-fptr-ret", "proto-fptr-ret"]), "forms": [d.choice(PARAM_FORMS) for _ in range(4)], "ret_n": d.int(1, 6), "variadic": d.bool(0.15)}, d
-    return limit, {"forms": [d.choice(DECL_FORMS) for _ in range(4)], "before": d.int(0, 5)}, d
+    return limit, {"forms": [d.choice(DECL_FORMS) for _ in range(4)], "before": d.int(0, 5), "late": d.weighted([(4, 0), (1, 1), (1, 2)])}, d
 
 
 def ctx_class(limit, ctx):
@@ -342,7 +348,7 @@ def ctx_class(limit, ctx):
         return "protos" if ctx["protos"] else "plain"
     if limit == "params":
         return ctx["where"] + ("/fptr" if any("(*" in f for f in ctx["forms"]) else "")
-    return "before%d%s" % (ctx["before"], "/fptr" if any("(*" in f for f in ctx["forms"]) else "")
+    return "before%d%s%s" % (ctx["before"], "/fptr" if any("(*" in f for f in ctx["forms"]) else "", "/late" if ctx.get("late") else "")
 
 
 def evaluate(camp, limit, n, ctx, built):
@@ -435,7 +441,7 @@ def run(pid, tier, seed):
     t0 = time.time()
     if vwidth("\tab\tc") != 9:
         raise core.HarnessError("width self-test failed")
-    shards, n = (16, 25) if tier == "quick" else (16, 250)
+    shards, n = (16, 80) if tier == "quick" else (16, 400)
     camp = core.Campaign()
     for name, rc in core.regress_cases(pid):
         for k, what in replay(pid, rc["case"]):
